@@ -66,7 +66,7 @@ def run(ctx):
                    ax_is_current=rng.random() < 0.5, aslist=rep or rng.random() < 0.5)
         jobs.append(job)
         skel.append(dict(kind="diagrams", dgms=dgms, plotonly=po, lifetime=lifetime, hasrange=hasrange, range=rngticks, title=title, legend=legend,
-                         labels=labels or ["$H_{%d}$" % i for i in range(nd)], q=Q, emb=e))
+                         labels=labels, q=Q, emb=e))
     n2 = 300 if quick else 3000
     for t in range(n2):
         e = E[t % len(E)]
